@@ -725,6 +725,136 @@ Proof.
 Qed.
 End Ensemble.
 
+(* ---------------------------------------------------------------- views: the written object need not own its atoms *)
+Section View.
+Variable V : vocab.
+
+(* pos_in is list.index: the position it returns holds the atom asked for, and lies inside the selection *)
+Lemma pos_in_spec sel : forall i k0 k, pos_in i sel k0 = Some k ->
+  k0 <= k /\ k < k0 + lenN sel /\ nth_error sel (N.to_nat (k - k0)) = Some i.
+Proof.
+  induction sel as [|j r IH]; intros i k0 k H; simpl in H; [discriminate|].
+  rewrite lenN_cons. destruct (i =? j) eqn:E.
+  - injection H as <-. apply N.eqb_eq in E. subst j. split; [lia|]. split; [lia|]. rewrite N.sub_diag. reflexivity.
+  - destruct (IH _ _ _ H) as [H1 [H2 H3]]. split; [lia|]. split; [lia|].
+    replace (N.to_nat (k - k0)) with (S (N.to_nat (k - N.succ k0))) by lia. exact H3.
+Qed.
+
+Lemma pos_in_nthN sel i k : pos_in i sel 0 = Some k -> k < lenN sel /\ nthN sel k = Some i.
+Proof.
+  intros H. destruct (pos_in_spec sel i 0 k H) as [_ [H2 H3]]. split; [lia|]. unfold nthN.
+  now rewrite N.sub_0_r in H3.
+Qed.
+
+Lemma pos_in_complete sel : forall i k0, In i sel -> exists k, pos_in i sel k0 = Some k.
+Proof.
+  induction sel as [|j r IH]; intros i k0 Hin; [destruct Hin|]. simpl. destruct (i =? j) eqn:E; [eauto|].
+  destruct Hin as [->|Hin]; [rewrite N.eqb_refl in E; discriminate|]. now apply IH.
+Qed.
+
+(* ... the FIRST such position *)
+Lemma pos_in_first sel : forall i k0 k, pos_in i sel k0 = Some k ->
+  forall n, (n < N.to_nat (k - k0))%nat -> nth_error sel n <> Some i.
+Proof.
+  induction sel as [|j r IH]; intros i k0 k H n Hn; simpl in H; [discriminate|].
+  destruct (i =? j) eqn:E.
+  - injection H as <-. lia.
+  - destruct n as [|n]; simpl.
+    + intros Hj. injection Hj as ->. rewrite N.eqb_refl in E. discriminate.
+    + apply (IH _ _ _ H). destruct (pos_in_spec r i (N.succ k0) k H) as [H1 _]. lia.
+Qed.
+
+Lemma pick_spec {A} (l : list A) sel : wf_sel (lenN l) sel = true ->
+  length (pick l sel) = length sel /\ forall k i, nth_error sel k = Some i -> nth_error (pick l sel) k = nthN l i.
+Proof.
+  unfold wf_sel. induction sel as [|j r IH]; intros H; [split; [reflexivity|intros [|k] i Hk; discriminate]|].
+  simpl in H. apply andb_prop in H. destruct H as [Hj Hr]. apply N.ltb_lt in Hj.
+  destruct (nthN_lt l j Hj) as [a Ha]. destruct (IH Hr) as [IH1 IH2]. simpl. rewrite Ha. split; [simpl; now rewrite IH1|].
+  intros [|k] i Hk; simpl in Hk |- *; [injection Hk as <-; now rewrite Ha|now apply IH2].
+Qed.
+
+Lemma pick_Forall {A} (P : A -> Prop) (l : list A) sel : Forall P l -> Forall P (pick l sel).
+Proof.
+  intros H. induction sel as [|j r IH]; [constructor|]. simpl. destruct (nthN l j) eqn:E; [|exact IH].
+  constructor; [|exact IH]. rewrite Forall_forall in H. apply H. now apply nthN_In in E.
+Qed.
+
+Lemma view_bonds_In sel (bs : list (bond V)) b' : In b' (view_bonds V sel bs) <-> exists b, In b bs /\ view_bond V sel b = Some b'.
+Proof.
+  induction bs as [|b r IH]; simpl; [split; [tauto|intros [b [[] _]]]|].
+  destruct (view_bond V sel b) as [b1|] eqn:E.
+  - simpl. rewrite IH. split.
+    + intros [<-|[b0 [Hin Hv]]]; [exists b; auto|exists b0; auto].
+    + intros [b0 [[<-|Hin] Hv]]; [left; congruence|right; eauto].
+  - rewrite IH. split.
+    + intros [b0 [Hin Hv]]. exists b0. auto.
+    + intros [b0 [[<-|Hin] Hv]]; [congruence|eauto].
+Qed.
+
+(* the ends of a bond of the view are positions of the view, holding the very atoms the parent's bond joins *)
+Lemma view_bond_spec sel (b b' : bond V) : view_bond V sel b = Some b' ->
+  b_a1 b' < lenN sel /\ b_a2 b' < lenN sel /\ nthN sel (b_a1 b') = Some (b_a1 b) /\ nthN sel (b_a2 b') = Some (b_a2 b)
+  /\ b_ty b' = b_ty b.
+Proof.
+  unfold view_bond. destruct (pos_in (b_a1 b) sel 0) as [i|] eqn:E1; [|discriminate].
+  destruct (pos_in (b_a2 b) sel 0) as [j|] eqn:E2; [|discriminate]. intros H. injection H as <-. cbn [b_a1 b_a2 b_ty].
+  destruct (pos_in_nthN _ _ _ E1) as [L1 N1]. destruct (pos_in_nthN _ _ _ E2) as [L2 N2]. auto.
+Qed.
+
+Lemma view_bond_complete sel (b : bond V) : In (b_a1 b) sel -> In (b_a2 b) sel -> exists b', view_bond V sel b = Some b'.
+Proof.
+  intros H1 H2. unfold view_bond. destruct (pos_in_complete sel _ 0 H1) as [i ->]. destruct (pos_in_complete sel _ 0 H2) as [j ->]. eauto.
+Qed.
+
+(* a view of a well-formed molecule is a well-formed molecule: whatever subset, whatever order *)
+Lemma good_view nm (m : mol V) sel : good_mol V m -> wf_name nm = true -> wf_sel (lenN (m_atoms m)) sel = true ->
+  good_mol V (sub_view V nm m sel).
+Proof.
+  intros [_ [Ga Gb]] Hn Hs. unfold good_mol, sub_view. cbn [m_name m_atoms m_bonds]. split; [exact Hn|]. split; [now apply pick_Forall|].
+  destruct (pick_spec (m_atoms m) sel Hs) as [Hlen _].
+  apply Forall_forall. intros b' Hb'. apply view_bonds_In in Hb'. destruct Hb' as [b [Hin Hv]].
+  rewrite Forall_forall in Gb. destruct (Gb b Hin) as [_ [Gt Gs]].
+  destruct (view_bond_spec sel b b' Hv) as [L1 [L2 [_ [_ Ety]]]].
+  unfold good_bond. rewrite Ety. split; [|split; [exact Gt|exact Gs]].
+  unfold wf_bond, lenN. rewrite Hlen. apply andb_true_intro. split; apply N.ltb_lt; [exact L1|exact L2].
+Qed.
+
+Variable wq : bool.
+
+Theorem view_roundtrip nm m sel : good_mol V m -> wf_name nm = true -> wf_sel (lenN (m_atoms m)) sel = true ->
+  read V wq (write V wq (sub_view V nm m sel)) = Some (norm V wq (sub_view V nm m sel)).
+Proof. intros G Hn Hs. apply read_write. now apply good_view. Qed.
+
+(* in the words of the property, for the object that was written: the atoms read back are the picked atoms in the
+   order picked; every bond read back joins the positions (in the view) of the two atoms the parent's bond
+   joins; no bond of the parent between two picked atoms is lost *)
+Theorem view_preserved nm m sel m' : good_mol V m -> wf_name nm = true -> wf_sel (lenN (m_atoms m)) sel = true ->
+  read V wq (write V wq (sub_view V nm m sel)) = Some m' ->
+  m_name m' = nm
+  /\ length (m_atoms m') = length sel
+  /\ (forall k i, nth_error sel k = Some i -> nth_error (m_atoms m') k = option_map (norm_atom V wq) (nthN (m_atoms m) i))
+  /\ m_bonds m' = map (norm_bond V) (view_bonds V sel (m_bonds m))
+  /\ (forall b', In b' (m_bonds m') -> exists b, In b (m_bonds m)
+        /\ nthN sel (b_a1 b') = Some (b_a1 b) /\ nthN sel (b_a2 b') = Some (b_a2 b))
+  /\ (forall b, In b (m_bonds m) -> In (b_a1 b) sel -> In (b_a2 b) sel -> exists b', In b' (m_bonds m')
+        /\ nthN sel (b_a1 b') = Some (b_a1 b) /\ nthN sel (b_a2 b') = Some (b_a2 b)).
+Proof.
+  intros G Hn Hs Hr. rewrite (view_roundtrip nm m sel G Hn Hs) in Hr. injection Hr as <-.
+  destruct (pick_spec (m_atoms m) sel Hs) as [Hlen Hnth].
+  unfold norm, sub_view. cbn [m_name m_atoms m_bonds]. split; [reflexivity|]. split; [now rewrite map_length|].
+  split; [|split; [reflexivity|split]].
+  - intros k i Hk. rewrite nth_error_map, (Hnth k i Hk). reflexivity.
+  - intros b' Hb'. apply in_map_iff in Hb'. destruct Hb' as [b1 [<- Hb1]]. apply view_bonds_In in Hb1.
+    destruct Hb1 as [b [Hin Hv]]. destruct (view_bond_spec sel b b1 Hv) as [_ [_ [N1 [N2 _]]]].
+    exists b. unfold norm_bond. cbn [b_a1 b_a2]. auto.
+  - intros b Hin H1 H2. destruct (view_bond_complete sel b H1 H2) as [b1 Hv].
+    exists (norm_bond V b1). split; [apply in_map; apply view_bonds_In; eauto|].
+    destruct (view_bond_spec sel b b1 Hv) as [_ [_ [N1 [N2 _]]]]. unfold norm_bond. cbn [b_a1 b_a2]. auto.
+Qed.
+
+(* the whole molecule in another atom order is such a view: sel a permutation of 0 .. n-1 *)
+End View.
+
 (* ================================================================== Part C: the real vocabulary *)
 Definition wf_real_mol (m : mol RV) : bool :=
   wf_mol RV m && forallb (fun a : atom RV => in_dom (a_ty a)) (m_atoms m)
@@ -845,6 +975,29 @@ Proof.
     unfold norm_bond. cbn [b_a1 b_a2 b_ty]. repeat split; try reflexivity.
     intros name tk Hin Hpos. destruct (bond_spec_sound Hspec name tk Hin) as [b0 [Hp [Hg Hs]]].
     rewrite Hpos in Hp. injection Hp as <-. cbn [V_bget V_bset RV real_vocab]. now rewrite Hg, Hs.
+Qed.
+(* views (Substructure, a conformer taken out of its ensemble): the written object need not own its atoms *)
+Theorem real_view_roundtrip wq nm m sel : wf_real_mol m = true -> wf_name nm = true -> wf_sel (lenN (m_atoms m)) sel = true ->
+  read RV wq (write RV wq (sub_view RV nm m sel)) = Some (norm RV wq (sub_view RV nm m sel)).
+Proof. intros H Hn Hs. apply view_roundtrip; [now apply real_good_mol|exact Hn|exact Hs]. Qed.
+
+Theorem real_view_preserved wq nm m sel m' : wf_real_mol m = true -> wf_name nm = true -> wf_sel (lenN (m_atoms m)) sel = true ->
+  read RV wq (write RV wq (sub_view RV nm m sel)) = Some m' ->
+  m_name m' = nm
+  /\ length (m_atoms m') = length sel
+  /\ (forall k i, nth_error sel k = Some i -> nth_error (m_atoms m') k = option_map (norm_atom RV wq) (nthN (m_atoms m) i))
+  /\ m_bonds m' = map (norm_bond RV) (view_bonds RV sel (m_bonds m))
+  /\ (forall b', In b' (m_bonds m') -> exists b, In b (m_bonds m)
+        /\ nthN sel (b_a1 b') = Some (b_a1 b) /\ nthN sel (b_a2 b') = Some (b_a2 b))
+  /\ (forall b, In b (m_bonds m) -> In (b_a1 b) sel -> In (b_a2 b) sel -> exists b', In b' (m_bonds m')
+        /\ nthN sel (b_a1 b') = Some (b_a1 b) /\ nthN sel (b_a2 b') = Some (b_a2 b)).
+Proof. intros H Hn Hs. apply view_preserved; [now apply real_good_mol|exact Hn|exact Hs]. Qed.
+
+Theorem real_conformer_roundtrip e k c : wf_real_ens e = true -> nthN (e_confs e) k = Some c ->
+  read RV true (write RV true (conformer_mol RV e c)) = Some (norm RV true (conformer_mol RV e c)).
+Proof.
+  intros H Hk. pose proof (real_good_ens e H) as G. apply read_write. apply good_conformer; [exact G|].
+  destruct G as [_ [_ [_ [_ Hl]]]]. rewrite Forall_forall in Hl. apply Hl. now apply nthN_In in Hk.
 Qed.
 End Real.
 
